@@ -37,9 +37,14 @@ add("C07", "fault_enumeration",
     "For each (workload, cell) the fault-free trace is recorded and the process tree is SIGKILLed before and after file-system "
     "events of that trace (quick: one representative index per distinct stage/label x phase, incl. a two-experiment workload and "
     "late-stage resumes with another --threads value; thorough: every index, plus resume with other --threads/schedules/memory "
-    "mode, a second kill during the resume, and random workloads/cells); after each kill `isoquant.py --resume` runs and "
+    "mode, a second kill during the resume, and random workloads/cells); a second fault kind, SIGINT to the top-level process, "
+    "raises KeyboardInterrupt at the event so that the stack unwinds and finally blocks, destructors and exit handlers run under "
+    "the same scheduler (when the event belongs to a pool worker the exception surfaces in the owner after the pool has drained "
+    "its queue, as the executor does); after each kill `isoquant.py --resume` runs and "
     "all outputs are compared with the uninterrupted control run. Real processes, real buffers, real destructors.",
     "A kill loses user-space buffers only (no power-loss semantics); C-level writes of pysam/pyfaidx/sqlite are single events; "
+    "SIGINT is delivered at tracked events only (not between arbitrary bytecodes) and to the top-level process only (a terminal's "
+    "Ctrl+C to the whole process group is not modelled); "
     "crash points are the tracked file-system mutations (open for write, raw write/flush, remove, rename, makedirs).",
     "deterministic simulation: crash-point enumeration over the recorded event trace, kill-tree fault + resume, golden equality",
     qt=1200, tt=3000)
